@@ -40,7 +40,8 @@ Params(f) ==
           ur |-> Pick({<<-2, 1>>, <<0, 1>>, <<1, 2>>}, {<<-1, 2>>, <<2, 1>>}), gr |-> Pick({<<7, 5>>, <<5, 3>>}, {<<3, 1>>}),
           xd0 |-> Pick({<<1, 2>>}, {<<-3, 1>>})]
     [] f = "Sedov" -> [geometry |-> Geo, gamma |-> Pick({<<7, 5>>, <<5, 3>>}, {<<3, 1>>}), rho0 |-> Rho,
-                       omega |-> Pick({<<0, 1>>, <<1, 2>>}, {<<4, 5>>}), eblast |-> Pick({<<17, 20>>, <<2, 1>>}, {})]
+                       omega |-> Pick({<<0, 1>>, <<1, 2>>, <<-1, 1>>, <<-2, 1>>}, {<<4, 5>>}),   \* -1: the singular value, -2: a vacuum-type value (resolved below)
+                       eblast |-> Pick({<<17, 20>>, <<2, 1>>}, {})]
     [] f = "EHEP"  -> [D |-> Pick({<<17, 20>>, <<1, 1>>}, {}), rho_0 |-> Pick({<<8, 5>>, <<1, 1>>}, {}),
                        up |-> Pick({<<1, 20>>, <<1, 10>>}, {<<0, 1>>}), xtilde |-> Pick({<<1, 1>>, <<4, 5>>}, {})]
     [] f = "Mader" -> [p_cj |-> Pick({<<3, 10>>, <<2, 1>>}, {}), d_cj |-> Pick({<<4, 5>>, <<1, 1>>}, {}),
@@ -141,7 +142,17 @@ Defined(f, p, t) ==
     [] OTHER -> TRUE
 
 
-Init == \E f \in Camps : \E p \in Product(Params(f)) : \E t \in TimesOf(f, p) :
+(* Sedov: the density exponent at which the solution type changes, omega* = (3j - 2 + gamma (2 - j)) / (gamma + 1); *)
+(* larger exponents (below the geometry j) give the vacuum type                                                    *)
+OmegaSing(j, g) == QDiv(QAdd(<<3 * j - 2, 1>>, QMul(g, <<2 - j, 1>>)), QAdd(g, <<1, 1>>))
+Resolve(f, q) ==
+  IF f = "Sedov" /\ q.omega[1] < 0
+  THEN LET ws == OmegaSing(q.geometry, q.gamma)
+       IN  [q EXCEPT !.omega = IF q.omega[1] = -1 THEN ws ELSE QDiv(QAdd(ws, <<q.geometry, 1>>), <<2, 1>>)]
+  ELSE q
+
+Init == \E f \in Camps : \E q \in Product(Params(f)) : \E t \in TimesOf(f, q) :
+         LET p == Resolve(f, q) IN
           /\ Defined(f, p, t)
           /\ st = [fam |-> f, par |-> p, t |-> t, geometry |-> Geom(f, p),
                    gammaQ |-> GammaQ(f, Geom(f, p)), cond |-> Conduction(f, p, Geom(f, p)), row |-> Cat[f]]
